@@ -194,13 +194,15 @@ func (c *Component) SendIQ(ctx context.Context, iq *stanza.IQ) (chan stanza.IQ, 
 	if iq.Attrs.Type != stanza.IQTypeSet && iq.Attrs.Type != stanza.IQTypeGet {
 		return nil, ErrCanOnlySendGetOrSetIq
 	}
+	// Register the route before sending: the response can arrive as soon as the request is written
+	result := c.router.NewIQResultRoute(ctx, iq.Attrs.Id)
 	if err := c.Send(iq); err != nil {
 		return nil, err
 	}
 	if verifEnabled {
 		vpoint("sendiq.written", "id", iq.Attrs.Id)
 	}
-	return c.router.NewIQResultRoute(ctx, iq.Attrs.Id), nil
+	return result, nil
 }
 
 // SendRaw sends an XMPP stanza as a string to the server.
